@@ -69,7 +69,7 @@ def run(ctx):
     import random
     rng = random.Random(ctx.seed * 104729 + 8)
     shapes = list(SHAPES)
-    per_shape_tasks = 20000
+    per_shape_tasks = 12000
     if thorough:
         per_shape_tasks = 100000
         for _ in range(34):
